@@ -20,6 +20,7 @@ FAMILIES = {
     "jets": ("MC_Jets", None),
     "deep": ("MC_Deep", None),
     "shared": ("MC_Shared", None),
+    "arraypat": ("MC_ArrayPat", None),
 }
 
 
@@ -95,7 +96,7 @@ def issue_property(case, issue, all_issues):
             return "C11"
         if what == "panic":
             return "C06"
-        if case.get("family") in ("scoping", "fold", "forwhile"):
+        if case.get("family") in ("scoping", "fold", "forwhile", "arraypat"):
             # a program of a single-construct family wrongly rejected / accepted: the statement about that construct
             # (binding structures C10, fold C08, for_while C09) is contradicted, and thereby C04
             return case.get("verdict_prop", "C04")
@@ -111,7 +112,7 @@ def issue_property(case, issue, all_issues):
     if at in ("instantiate", "commit"):
         if case.get("inst") == "err" or (what == "err" and "rgument" in str(issue.get("msg", "")) and case.get("args_kind")):
             return "C12"
-        if case.get("family") in ("fold", "forwhile", "scoping") and case.get("verdict_prop") and what != "panic":
+        if case.get("family") in ("fold", "forwhile", "scoping", "arraypat") and case.get("verdict_prop") and what != "panic":
             # the families written for one construct (fold, for_while, binding structures): a program of the family that
             # does not compile contradicts the statement about that construct (and C03 as well)
             return case["verdict_prop"]
